@@ -1193,6 +1193,8 @@ public:
 
     // Assign ghost variables to ref
     ghost_variables_t ref_gvars = get_or_insert_gvars(ref);
+    // ref is overwritten: forget everything known about its old value
+    ref_gvars.forget(m_base_dom);
 
     // initialize ghost variables
     if (ref_gvars.has_offset_and_size()) {
